@@ -142,7 +142,15 @@ class AstPrinter(AstVisitor):
         node.lineno = self.curr_line or node.lineno
         node.right.accept(self)
 
+    def visit_ParenthesizedNode(self, node: mparser.ParenthesizedNode) -> None:
+        node.lineno = self.curr_line or node.lineno
+        self.append('(', node)
+        node.inner.accept(self)
+        self.append(')', node)
+
     def maybe_parentheses(self, outer: mparser.BaseNode, inner: mparser.BaseNode, parens: bool) -> None:
+        # an operand that is written in parentheses prints its own
+        parens = parens and not isinstance(inner, mparser.ParenthesizedNode)
         if parens:
             self.append('(', inner)
         inner.accept(self)
